@@ -791,7 +791,16 @@ func init() {
 				s.StyleMarks[sid] = mark
 			case 0:
 				delete(s.StyleMarks, id)
-				st := sm.CreateCustomStyle(id, s.Str(), []style.StyleType{"paragraph", "character", "table", "numbering", ""}[r.Intn(5)], []string{"", "Normal", "Heading1"}[r.Intn(3)])
+				// based on nothing, on a built-in style, on a style of the caller's own made earlier (which may be removed again
+				// later), or on something the registry does not hold (an id from another document, a display name)
+				bases := []string{"", "Normal", "Heading1", "", "Normal", "Heading1", "NoSuchBase", "heading 1"}
+				for _, st := range sm.GetAllStyles() {
+					if st != nil && st.CustomStyle && strings.HasPrefix(st.StyleID, "Cust") && st.StyleID != id {
+						bases = append(bases, st.StyleID, st.StyleID)
+					}
+				}
+				sort.Strings(bases)
+				st := sm.CreateCustomStyle(id, s.Str(), []style.StyleType{"paragraph", "character", "table", "numbering", ""}[r.Intn(5)], bases[r.Intn(len(bases))])
 				if st != nil && r.Bool() {
 					if p := s.pickPara(); p != nil {
 						p.SetStyle(id)
@@ -809,6 +818,19 @@ func init() {
 					RunConfig:       &style.QuickRunConfig{FontName: s.Str(), FontSize: 11, FontColor: "333333", Bold: r.Bool(), Italic: r.Bool()}})
 			case 2:
 				// only styles nothing else in the script uses (removing a style and then using it is caller misuse)
+				if r.Bool() {
+					// one of the caller's own styles that no paragraph uses (it may be the base of one that is used)
+					var own []string
+					for _, st := range sm.GetAllStyles() {
+						if st != nil && st.CustomStyle && strings.HasPrefix(st.StyleID, "Cust") && !s.usedStyles[st.StyleID] {
+							own = append(own, st.StyleID)
+						}
+					}
+					if len(own) > 0 {
+						sort.Strings(own)
+						id = own[r.Intn(len(own))]
+					}
+				}
 				if s.usedStyles[id] {
 					return // the id collides with a style a paragraph of this script uses
 				}
